@@ -27,6 +27,7 @@ ASSUMPTIONS = [
     "attempt's timestamp; unvalidated runs are repeated",
     'the 60 s read timeout (accept-then-silent) is exercised in the thorough tier only',
 ]
+SUP_VERBS = ('supervisor', 'supervisor-slowsdk')
 TRUSTED = ['harness net.Addr whose Network() call marks the start of an attempt; llrp.TestDevice as the scripted reader; testify mock SDK']
 
 
@@ -43,14 +44,17 @@ def _run(tier, seed, only=None):
 
 def judge(res, reqs, obs):
     exp = core.oracle(reqs)
-    intended = core.oracle([r.replace('supervisor ', 'supervisor-intended ', 1) if r.startswith('supervisor ') else r for r in reqs])
+    def to_intended(r):
+        v, _, rest = r.partition(' ')
+        return 'supervisor-intended ' + rest if v in SUP_VERBS else ('trysend-intended ' + rest if v == 'trysend' else r)
+    intended = core.oracle([to_intended(r) for r in reqs])
     bad = []
     for r, e, i, o in zip(reqs, exp, intended, obs):
         res.evaluations += 1
         verb = r.split(' ')[0]
         res.count(verb)
         res.distinct.add(r)
-        if verb == 'supervisor':
+        if verb in SUP_VERBS:
             toks = r.split(' ')[2:]
             res.count('len=%d' % sum(1 for t in toks if t[:2] not in ('st', 'ua')))
             for t in toks:
@@ -82,7 +86,7 @@ def correspond(res, tier, seed):
     res.exhaustive = True
     n = len(reqs)
     res.samples = [dict(request=reqs[i], oracle=exp[i], observed=obs[i]) for i in (0, n // 5, n // 3, n // 2, 2 * n // 3, n - 1) if 0 <= i < n]
-    res.extra['supervisor_scripts'] = sum(1 for r in reqs if r.startswith('supervisor '))
+    res.extra['supervisor_scripts'] = sum(1 for r in reqs if r.split(' ')[0] in SUP_VERBS)
     res.extra['trysend_scripts'] = sum(1 for r in reqs if r.startswith('trysend '))
     res.extra['traces_validated_against_impl'] = n
 
@@ -93,8 +97,11 @@ def replay(res, path):
     if not case:
         raise RuntimeError('replay has no case lines')
     line = case[0]
-    if line.startswith('supervisor '):
-        reqs, obs = _run('quick', body.get('seed', 1), only=line.split(' ', 1)[1])
+    if line.split(' ')[0] in SUP_VERBS:
+        only = line.split(' ', 1)[1]
+        if line.startswith('supervisor-slowsdk '):
+            only = 'slow ' + only
+        reqs, obs = _run('quick', body.get('seed', 1), only=only)
     else:
         reqs, obs = _run('quick', body.get('seed', 1))
         keep = [k for k, r in enumerate(reqs) if r == line]
